@@ -56,7 +56,7 @@ def opC18Generate (j : Json) : Except String Json := do
   let api ← (← getArrL j "api").mapM c18Method
   let ss ← (← getArrL j "settings").mapM c18Settings
   let views ← (← getArrL j "views").mapM fun v => do (← v.getArr?).toList.mapM fun s => s.getStr?
-  let errs := generate (views.map (viewOf api)) ss
+  let errs := generate api (views.map (viewOf api)) ss
   pure (Json.mkObj [("accepted", Json.bool errs.isEmpty),
                     ("errors", jarr (errs.map fun (k, e) => jarr [Json.str k, c18ErrJson e]))])
 
